@@ -183,9 +183,17 @@ def run_apalache(ctx, module, step_timeout=2400, witness=None, theorem=None):
 
 # ----------------------------------------------------------------------------- traces
 
-def n_trace_events(cmd, trace_row):
+def n_trace_events(cmd, trace_row, following=()):
     if cmd["op"] in ("enc14", "encpn"):
         return 1 + len(trace_row.get("bytes", []))
+    if cmd["op"] == "rep":
+        # the events of one `rep` command carry the same "inrep" tag
+        k = 1
+        for r in following:
+            if r.get("inrep") != trace_row.get("inrep"):
+                break
+            k += 1
+        return k
     return 1
 
 
@@ -240,7 +248,7 @@ def save_replay(ctx, script, trace, index, name):
     for c in cmds:
         if pos >= len(tr):
             break
-        k = n_trace_events(c, tr[pos])
+        k = n_trace_events(c, tr[pos], tr[pos + 1:pos + 8])
         keep.append(c)
         pos += k
         if pos >= index:
@@ -306,6 +314,52 @@ def corrupt_field(field, value, pred):
         rows[i][field] = value
         return i
     return f
+
+
+def real_clock_run(ctx):
+    """Smoke run of the PRODUCTION configuration (guard off, real std::time::Instant): histories whose
+    reports do not depend on how much time passes - timeout 0 (every poll is late) and timeouts that no
+    run outlives (Duration::MAX, 2^40 .. 2^63 s: no poll is ever late; `deadline = now + timeout` style
+    arithmetic overflows there)."""
+    from common import exec_script
+    rows = gen.random_poll(ctx.rng, ctx.q(6000, 60000), timeouts=[0, -1, -1, -2], first_id=900, seg=400)
+    rows = [r for r in rows if r["op"] != "tick"]
+    script = ctx.work.fresh("script_real-clock_", "ndjson")
+    write_ndjson(script, rows)
+    exec_script(script, script + ".trace", config="nohook")
+    res2 = validate_trace(ctx.work, script + ".trace")
+    tool = res2.of("TOOLERR") + [v for v in res2.of("VIOL") if v[1] == "TOOL"]
+    if tool:
+        raise ToolError("the machinery is inconsistent on the real-clock run: %s" % tool[:5])
+    bad = [v for v in res2.of("VIOL") if v[1] == ctx.prop]
+    for v in res2.of("VIOL"):
+        if v[1] != ctx.prop:
+            ctx.other[v[1]] = ctx.other.get(v[1], 0) + 1
+    ctx.traces += 1
+    ctx.events += res2.events
+    if bad:
+        first = min(v[3] for v in bad)
+        ctx.viol.append({"clause": [v[2] for v in bad if v[3] == first][0], "trace_index": first, "event": None,
+                         "replay": save_replay(ctx, script, script + ".trace", first, "real-clock"),
+                         "count": len(bad), "driver": "real-clock (guard off)"})
+    log("trace real-clock (guard off): %d events, %d findings for %s" % (res2.events, len(bad), ctx.prop))
+
+
+def long_run_battery(ctx, kinds, to_poll=5):
+    """Partial progress, then ONE call repeated n times (n up to 2^16 + 1, summarised by `skip` events),
+    then completion; twins that are spared the run.  Exposes counters, ages, generation numbers and
+    'every n-th call' logic that the bounded model and short random histories cannot reach."""
+    for k in kinds:
+        run_script(ctx, gen.long_runs(ctx.rng, k, to_poll if k == "poll" else 0, thorough=not ctx.quick),
+                   "long-runs-" + k)
+
+
+def far_time_battery(ctx, twins=True):
+    """The polling scanner at clock readings where 16/32/64-bit counts of ns / us / ms wrap."""
+    rows = gen.far_times(ctx.rng, ctx.q(150, 1500))
+    if twins:
+        rows += gen.far_times_twin(ctx.rng, ctx.q(60, 600))
+    run_script(ctx, rows, "far-away-times")
 
 
 # ----------------------------------------------------------------------------- sweeps over spec states
